@@ -77,12 +77,17 @@ BASE_MODS = mods_for(S.pair("Ka", KA) + S.pair("Kb", KB))
 inc1, exp1 = NOW, NOW + D(days=21)
 inc2, exp2 = NOW + D(days=10), NOW + D(days=31)
 
-# 1. validity window on the lattice around each bundle's inception / expiration
+# 1. validity window on the lattice around each bundle's inception / expiration; the configured instants written with various UTC offsets
+TZS = [dt.timezone.utc, dt.timezone(D(hours=-5)), dt.timezone(D(hours=2)), dt.timezone(D(hours=5, minutes=30)), dt.timezone(D(hours=-11))]
 for delta in [D(days=-1), D(seconds=-1), D(0), D(seconds=1), D(days=1)]:
     for anchor_name, anchor in [("inc1", inc1), ("inc2", inc2)]:
-        run("window-valid-from", BASE_MODS, {"ksk_a": ceremony.ksk_def(KA, valid_from=anchor + delta)}, desc={"valid_from": f"{anchor_name}{delta.total_seconds():+.0f}s"})
+        for tz in (TZS if delta in (D(seconds=-1), D(0), D(seconds=1)) else TZS[:1]):
+            run("window-valid-from", BASE_MODS, {"ksk_a": ceremony.ksk_def(KA, valid_from=(anchor + delta).astimezone(tz))},
+                desc={"valid_from": f"{anchor_name}{delta.total_seconds():+.0f}s", "written_as": (anchor + delta).astimezone(tz).isoformat()})
     for anchor_name, anchor in [("exp1", exp1), ("exp2", exp2), ("inc2", inc2)]:
-        run("window-valid-until", BASE_MODS, {"ksk_a": ceremony.ksk_def(KA, valid_until=anchor + delta)}, desc={"valid_until": f"{anchor_name}{delta.total_seconds():+.0f}s"})
+        for tz in (TZS if delta in (D(seconds=-1), D(0), D(seconds=1)) and anchor_name != "inc2" else TZS[:1]):
+            run("window-valid-until", BASE_MODS, {"ksk_a": ceremony.ksk_def(KA, valid_until=(anchor + delta).astimezone(tz))},
+                desc={"valid_until": f"{anchor_name}{delta.total_seconds():+.0f}s", "written_as": (anchor + delta).astimezone(tz).isoformat()})
 run("window-no-valid-until", BASE_MODS, {"ksk_a": ceremony.ksk_def(KA)})
 # window applies to publish / revoke too, and per slot
 for role in ("publish", "revoke", "sign"):
